@@ -26,11 +26,13 @@ try: prev=json.load(open(d+'/meta.json'))
 except Exception: pass
 runs=prev.get('check_runs',[])
 runs=[x for x in runs if x.get('tier')!=r['tier']]+[{'tier':r['tier'],'exit':r['check_exit'],'violations':r['violations'],'signatures':r['signatures']}]
-meta={'property':r['property'],'origin':'independent sub-agent given only the property text and a scratch worktree',
+meta=dict(prev)
+meta.update({'property':r['property'],'origin':'independent sub-agent given only the property text and a scratch worktree',
  'needs_to_manifest':'see README.md (written by the sub-agent)',
  'confirmed':{'patch_applies_on_clean_copy':True,'library_builds':True,'repository_suite_passes_with_patch':True,'demo_passes_without_patch':True,'demo_fails_with_patch':True},
  'what_was_run':['selftest/seed_eval.sh <seed> %s <tier> : rsync copy of /repo under /var/tmp, git apply patch.diff, go build, go test -vet=off -count=1 ./..., demo with and without the patch, ./vcheck %s <tier> with VERIF_REPO=<copy>'%(r['property'],r['property'])],
- 'check_runs':runs,'detected':any(x['exit']==1 for x in runs)}
+ 'check_runs':runs,'detected':any(x['exit']==1 for x in runs)})
+if 'change' in prev: meta['needs_to_manifest']=prev['needs_to_manifest']
 json.dump(meta,open(d+'/meta.json','w'),indent=1)
 PY
   else
